@@ -409,6 +409,8 @@ def m_sk_from_string(ctx, args, kw):
     curve = kw.get("curve", args[1] if len(args) > 1 else None)
     if curve is not ecdsa.SECP256k1:
         raise Undecided("curve other than SECP256k1")
+    if set(kw) - {"string", "curve", "hashfunc"}:
+        raise Undecided("SigningKey.from_string with unmodelled arguments")
     if hasattr(b, "sym_len") and not isinstance(b, Rope):
         raise Undecided("SigningKey.from_string on symbolic-length bytes")
     if not isinstance(b, (Rope, bytes)):
@@ -456,7 +458,19 @@ def m_vk_from_string(ctx, args, kw):
         if hasattr(b, "sym_len"):
             raise Undecided("VerifyingKey.from_string on symbolic-length bytes")
         raise PyRaise(TypeError, "from_string needs bytes")
+    extra = set(kw) - {"string", "curve", "validate_point", "hashfunc", "valid_encodings"}
+    if extra or kw.get("valid_encodings") is not None:
+        raise Undecided(f"VerifyingKey.from_string with unmodelled arguments {sorted(extra)}")
     ok, pt = U.sec_parse(b)
+    vp = kw.get("validate_point", True)
+    if vp is not True and len(as_rope(b)) in (64, 65) and not as_rope(b).is_concrete():
+        # E4': without point validation raw / uncompressed / hybrid encodings are accepted whenever they are
+        # structurally well-formed, on the curve or not
+        r = as_rope(b)
+        struct = True if len(r) == 64 else lor(r[0] == 4, r[0] == 6, r[0] == 7)
+        if not ctx.branch(struct):
+            raise PyRaise(MPE, "not a valid point encoding")
+        return ModelObj("VerifyingKey", pt=pt)
     if not ctx.branch(ok):
         raise PyRaise(MPE, "not a valid point encoding")
     return ModelObj("VerifyingKey", pt=pt)
@@ -593,3 +607,102 @@ class WeakRef(L.SymVal):
 
     def materialize(self):
         return _weakref.ref(self.target_real)
+
+
+@nmodel((str, "index", "inst"))
+def m_str_index(ctx, selfv, args, kw):
+    from .seqs import ZChar, Table
+    c = args[0]
+    if isinstance(c, ZChar) and len(set(selfv)) == len(selfv):
+        tab = Table.of(selfv)
+        E._table_ground(ctx, tab)
+        if not ctx.branch(tab.IN(c.code)):
+            raise PyRaise(ValueError, "substring not found")
+        return tab.IDX(c.code)
+    raise Undecided("str.index with symbolic argument")
+
+
+@nmodel((str, "find", "inst"))
+def m_str_find(ctx, selfv, args, kw):
+    from .seqs import ZChar, Table
+    c = args[0]
+    if isinstance(c, ZChar) and len(set(selfv)) == len(selfv):
+        tab = Table.of(selfv)
+        E._table_ground(ctx, tab)
+        return z3.If(tab.IN(c.code), tab.IDX(c.code), -1)
+    raise Undecided("str.find with symbolic argument")
+
+
+class HexNum(L.SymVal):
+    """hex(n) for n >= 0; only the idiom  h = hex(n)[2:]; h = '0' + h if len(h) % 2 else h; bytes.fromhex(h)
+    is understood (S-axioms HexStr): the result is the minimal big-endian byte string of n, b"\x00" for 0"""
+    def __init__(self, n, stripped=False, padded=False):
+        self.n, self.stripped, self.padded = n, stripped, padded
+
+    def sym_subscript(self, ctx, idx):
+        if isinstance(idx, slice) and idx.start == 2 and idx.stop is None and not self.stripped:
+            if not ctx.branch(self.n >= 0):
+                raise Undecided("hex() of a negative number")
+            return HexNum(self.n, True, False)
+        raise Undecided("HexNum subscript")
+
+    def sym_len(self, ctx=None):
+        if not self.stripped:
+            raise Undecided("len(hex(n))")
+        hl = hexlen(self.n)
+        return hl + 1 if self.padded else hl
+
+    def sym_binop(self, ctx, op, other, reflected):
+        if isinstance(op, ast.Add) and reflected and other == "0" and self.stripped and not self.padded:
+            return HexNum(self.n, True, True)
+        raise Undecided("HexNum operator")
+
+    def sym_fromhex(self, ctx):
+        from .seqs import ZSeq
+        if not self.stripped:
+            raise PyRaise(ValueError, "non-hexadecimal number found")      # the '0x' prefix
+        ln = self.sym_len()
+        if not ctx.branch(ln % 2 == 0):
+            raise PyRaise(ValueError, "odd-length hex string")
+        return ZSeq(minbe(self.n), "bytes")
+
+    def sym_type(self):
+        return str
+
+
+_hexlen = z3.Function("hexlen", z3.IntSort(), z3.IntSort())
+_minbe = None
+
+
+def hexlen(n):
+    """number of hex digits of n >= 0 (1 for 0)"""
+    t = _hexlen(L.toint(n))
+    L.sink().add(t >= 1)
+    return t
+
+
+def minbe(n):
+    """minimal big-endian bytes of n >= 0 (one zero byte for 0): bytes.fromhex of the even-padded hex digits"""
+    from . import seqs
+    global _minbe
+    if _minbe is None:
+        _minbe = z3.Function("minbe", z3.IntSort(), seqs.ISeq)
+    n = L.toint(n)
+    t = _minbe(n)
+    S = L.sink()
+    S.add(z3.Implies(n >= 0, z3.And(seqs.be(t) == n, z3.Length(t) == (hexlen(n) + 1) / 2, z3.Length(t) >= 1)))
+    S.add(z3.Implies(n > 0, t[0] != 0))
+    S.add(z3.Implies(n == 0, t == z3.Unit(z3.IntVal(0))))
+    return t
+
+
+def m_hex2(ctx, args, kw):
+    v = args[0]
+    if hasattr(v, "sym_hex"):
+        return v.sym_hex(ctx)
+    if is_sym(v) and z3.is_int(v):
+        return HexNum(v)
+    raise Undecided("hex() of symbolic")
+
+
+NATIVE_MODELS[hex] = m_hex2
